@@ -21,6 +21,7 @@ CONSTANTS
   Faults = {}
   AdvMsgs <- AdvSet
   MaxAdv = 2
+  Bridgers = {}
   MaxHandles = 2
   MaxCtr = 1
 VIEW View
